@@ -59,6 +59,7 @@ impl Property for C07 {
             allow_loops: false,
             outside: false,
             fifo: false,
+            raw_byte: None,
         };
         let spec = gen_tree(rng, &cfg);
         let start = rng.pick(&["t", "t", "./t", "t/"]).to_string();
